@@ -179,6 +179,12 @@ GROUPS = ("EcoModeV1", "EcoModeV2", "Schedule", "PeakShavingMode")
 
 
 def type_name(sensor) -> str:
+    """Name of the sensor kind.  A subclass the reference does not know (e.g. one introduced by a change to the library) is
+    judged as the nearest ancestor it does know: a `class BatteryByte(Byte)` listed in a table still claims to be a Byte."""
+    for klass in type(sensor).__mro__:
+        n = klass.__name__
+        if n in TYPES or n in COMPUTED or n in GROUPS:
+            return n
     return type(sensor).__name__
 
 
